@@ -114,15 +114,12 @@ Ambiguous(f) ==
   /\ \/ AllSure(f, MaybeB32) /\ ~(AllSure(f, SureB32) /\ Exact(f[Len(f)]))
      \/ AllSure(f, MaybeDigit) /\ ~(AllSure(f, SureDigit) /\ Exact(f[1]))
 
-\* index of the first ":" at or after position i (0 if none)
-RECURSIVE FindColon(_, _)
-FindColon(b, i) == IF i > Len(b) THEN 0 ELSE IF b[i] = ":" THEN i ELSE FindColon(b, i + 1)
 \* the fields between the colons
-RECURSIVE SplitFrom(_, _)
-SplitFrom(b, i) == LET k == FindColon(b, i) IN
-                   IF k = 0 THEN <<SubSeq(b, i, Len(b))>>
-                   ELSE <<SubSeq(b, i, k - 1)>> \o SplitFrom(b, k + 1)
-Split(b) == SplitFrom(b, 1)
+RECURSIVE Ascending(_)
+Ascending(S) == IF S = {} THEN <<>> ELSE LET m == SetMin(S) IN <<m>> \o Ascending(S \ {m})
+Split(b) ==
+  LET cs == <<0>> \o Ascending({i \in 1..Len(b) : b[i] = ":"}) \o <<Len(b) + 1>>
+  IN [j \in 1..(Len(cs) - 1) |-> SubSeq(b, cs[j] + 1, cs[j + 1] - 1)]
 
 Pattern(fk) ==
   CASE fk \in {"CHK", "CHK-Verifier"} -> <<"K128", "H256", "NUM", "NUM", "NUM">>
